@@ -81,7 +81,7 @@ def gen_table_case(rng, uni):
     pool = [rd, op, ts, lk, rng.choice(uni.undecoded)]
     fresh = [uni.unknown(rng) for _ in range(2)]
     table = {c: base[c] for c in pool}
-    kind = rng.choice(['drop', 'renumber', 'swap', 'mixed'])
+    kind = rng.choice(['drop', 'renumber', 'swap', 'mixed', 'alias'])
     if kind in ('drop', 'mixed'):
         table.pop(rng.choice(pool))
     if kind in ('renumber', 'mixed'):
@@ -90,6 +90,10 @@ def gen_table_case(rng, uni):
     if kind in ('swap', 'mixed'):
         a, b = rng.sample([c for c in table], 2)
         table[a], table[b] = table[b], table[a]
+    if kind == 'alias':
+        # one decodable name under two ids (the table maps ids to names, nothing makes names unique): both ids are decoded
+        src = rng.choice([c for c in (rd, op) if c in table])
+        table[fresh[1]] = table[src]
     codes = pool + fresh
     hist = []
     for _ in range(rng.choice([4, 10, 25])):
